@@ -19,6 +19,14 @@ def run(prop, tier, seed_, replay=None):
         from . import c06
 
         return c06.run(tier, seed_)
+    if prop == "C10":
+        from . import c10
+
+        return c10.run(tier, seed_)
+    if prop == "C11":
+        from . import c10
+
+        return c10.run_c11(tier, seed_)
     if prop == "C19":
         from . import c19
 
